@@ -108,7 +108,11 @@ def main():
             root = realise(t)
             orig_nodes = nodes(root)
             ids = {id(x) for x in orig_nodes}
-            c = root.clone()
+            try:
+                c = root.clone()
+            except Exception as e:  # noqa: BLE001
+                fails.append({"clause": "clone/identical-independent", "detail": f"clone() raised {type(e).__name__}: {str(e)[:80]} on {t}"})
+                continue
             cases += 1
             probs = []
             iso(root, c, ids, probs)
@@ -121,7 +125,11 @@ def main():
             # clone_from_root via every node
             for x in orig_nodes:
                 p = path_of(x)
-                y = x.clone_from_root()
+                try:
+                    y = x.clone_from_root()
+                except Exception as e:  # noqa: BLE001
+                    fails.append({"clause": "clone_from_root/locates-node", "detail": f"clone_from_root() raised {type(e).__name__}: {str(e)[:80]} on {t} via {p}"})
+                    continue
                 cases += 1
                 r2 = y
                 guard = 0
